@@ -3,6 +3,7 @@
 // where the calling thread blocks).  Queue/atomics run sequentially here; their concurrent correctness is C11.
 #include "verif.h"
 #include "sdk/src/trace/batch_span_processor.cc"
+#include "sdk/src/trace/exporter.cc"
 using namespace opentelemetry;
 namespace sdkt = opentelemetry::sdk::trace;
 #ifndef QMAX
@@ -128,3 +129,8 @@ ENTRY h_shutdown() {
   VASSERT(!ff, "ForceFlush after Shutdown reports false");
   VASSERT(g_batches == batches && g_flush_calls == flushes && g_shutdown_calls == 1 && g_nexported == k, "after Shutdown no exporter call is made by OnEnd / ForceFlush / Shutdown");
 }
+// ---- probes (development): growth of the program size step by step
+ENTRY h_p0() { auto *p = make_proc(); VASSERT(p->buffer_.size() == 0, "p0"); }
+ENTRY h_p1() { auto *p = make_proc(); p->OnEnd(std::unique_ptr<sdkt::Recordable>(new TokRec(1))); VASSERT(p->buffer_.size() == 1, "p1"); }
+ENTRY h_p2() { auto *p = make_proc(); p->OnEnd(std::unique_ptr<sdkt::Recordable>(new TokRec(1))); p->OnEnd(std::unique_ptr<sdkt::Recordable>(new TokRec(2))); VASSERT(p->buffer_.size() == 2, "p2"); }
+ENTRY h_p3() { auto *p = make_proc(); p->OnEnd(std::unique_ptr<sdkt::Recordable>(new TokRec(1))); p->Export(); VASSERT(p->buffer_.size() == 0 && g_nexported == 1, "p3"); }
